@@ -99,13 +99,16 @@ pub fn parse_sexagesimal(angle: &str) -> f64 {
         return f64::NAN;
     }
 
-    // Handle NSEW indicators
+    // Handle NSEW indicators (by character, not by byte: the last
+    // character of malformed input may be a multi-byte one)
     let mut postfix_sign = 1.0;
-    if "wWsSeEnN".contains(&angle[n - 1..]) {
-        if "wWsS".contains(&angle[n - 1..]) {
-            postfix_sign = -1.0;
+    if let Some(last) = angle.chars().last() {
+        if "wWsSeEnN".contains(last) {
+            if "wWsS".contains(last) {
+                postfix_sign = -1.0;
+            }
+            angle = &angle[..n - last.len_utf8()];
         }
-        angle = &angle[..n - 1];
     }
 
     // Split into as many elements as given: D, D:M, D:M:S
